@@ -1,4 +1,5 @@
 CONSTANTS PageM <- Page43 Formats = {"RGBA32_LE"} Strides = {"exact"} MaxDraws = 0 Clip = TRUE
 SPECIFICATION TSpec
+INVARIANT AllAccepted
 POSTCONDITION TraceAccepted
 CHECK_DEADLOCK FALSE
